@@ -30,7 +30,13 @@ RULE = ("triple drawn from: CIDAR entry/cassette/device vectors, EcoFlex cassett
         "target contains up(m_1).t_1...up(m_L).t_L (YTK: the insert contains the "
         "entry's overhang+target+overhang); then the product assembles into a "
         "generated next-level vector and the result equals the closed form. "
-        "Non-trivial = chain >= 2 or origin of the rotated product inside the insert; "
+        "Compositions: CIDAR entries -> cassettes -> device, MoClo entries -> cassette, "
+        "EcoFlex cassettes -> device: each level's real product (rotated) is typed by "
+        "the next class, used as the first insert of a generated instance of the next "
+        "level's kit vector together with generated companions, and the clauses are "
+        "asserted again on that product. "
+        "Non-trivial = chain >= 2, origin of the rotated product inside the insert, or a "
+        "composition that reached depth >= 2; "
         "distinct = distinct spec.")
 ASSUMPTIONS = [
     "YTK: a YTKProduct carries the BsaI sites inside its own target, so containment is checked in the direction the design allows; its template (the insert proper) is >= 2 nt",
@@ -57,7 +63,9 @@ class Level(object):
     """Everything built for one first-level assembly of a triple."""
 
 
-def build_level(spec):
+def build_level(spec, real_first=None):
+    """real_first = (sequence, fragment): a real lower-level product that takes
+    the place of the first generated insert (multi-level compositions)."""
     vname, mname, nname = TRIPLES[spec["triple"]]
     VC, MC, NC = (kits.resolve_class(x) for x in (vname, mname, nname))
     g1 = dna.geometry(VC.cutter)
@@ -88,6 +96,10 @@ def build_level(spec):
     lv.mods = []
     frags = []
     for i, m in enumerate(spec["modules"]):
+        if i == 0 and real_first is not None:
+            lv.mods.append(real_first[0])
+            frags.append(real_first[1])
+            continue
         if mname == "ytk.YTKProduct":
             w, gr = ytk_inst
             (b1, f1), (b2, f2), (b3, f3) = gr
@@ -133,8 +145,90 @@ def first_level(spec, lv):
                         % (TRIPLES[spec["triple"]][0], type(e).__name__, e))
 
 
+COMPOSITIONS = [[0, 1, 2], [0, 1], [1, 2], [5, 6], [3, 4]]
+
+
+def next_level_view(P, g2):
+    """(a1, a2) = starts of the forward / reverse next-level cut events, or None."""
+    events = dna.cut_events(P, g2)
+    fwd = [a for a, s in events if s == 1]
+    rev = [a for a, s in events if s == -1]
+    if len(fwd) != 1 or len(rev) != 1:
+        return None
+    return fwd[0], rev[0]
+
+
+def judge_next(lv, product, tname, ks):
+    """The statement's clauses for one product; -> (start overhang, end overhang, fragment)."""
+    P = str(product.seq).upper()
+    n = len(P)
+    view = next_level_view(P, lv.g2)
+    if view is None:
+        raise Violation("NEXT-LEVEL-REJECTS", "%s: the product does not carry one forward and one "
+                        "reverse %s site" % (tname, lv.g2.name))
+    a1, a2 = view
+    k2 = lv.g2.k
+    want_start, want_end = dna.circ_slice(P, a1, k2), dna.circ_slice(P, a2, k2)
+    for k in [0] + list(ks or []):
+        k %= n
+        nxt = lv.NC(sut(lambda: product >> k))
+        if not sut(nxt.is_valid):
+            raise Violation("NEXT-LEVEL-REJECTS", "%s: %s rejects the product rotated by %d (%d nt)"
+                            % (tname, lv.NC.__name__, k, n))
+        os_, oe = str(sut(nxt.overhang_start)).upper(), str(sut(nxt.overhang_end)).upper()
+        if os_ != want_start or oe != want_end:
+            raise Violation("NEXT-LEVEL-OVERHANGS", "%s: %s reports overhangs %s/%s, the %s cut events "
+                            "give %s/%s" % (tname, lv.NC.__name__, os_, oe, lv.g2.name, want_start, want_end))
+        target = str(sut(nxt.target_sequence).seq).upper()
+        if lv.insert not in target:
+            raise Violation("NEXT-LEVEL-TARGET", "%s: target of %s (%d nt) does not contain the whole "
+                            "insert (%d nt)" % (tname, lv.NC.__name__, len(target), len(lv.insert)))
+    return want_start, want_end, dna.circ_slice(P, a1, (a2 - a1) % n)
+
+
+def check_composition(spec, ctx):
+    """Entries -> cassettes -> device: every level's product is typed by the
+    next level's class and used as a real insert of the next level's vector."""
+    triples = COMPOSITIONS[spec["composition"] % len(COMPOSITIONS)]
+    real = None
+    depth = 0
+    prev_overhangs = None
+    for li, t in enumerate(triples):
+        lspec = dict(spec["levels"][li], triple=t)
+        tname = TRIPLES[t][0].split(".")[1]
+        if real is not None:
+            chain = [prev_overhangs[0], prev_overhangs[1]] + [o for o in lspec["chain"][2:]]
+            ok = all(not plasmid.collides(a, b) for i, a in enumerate(chain) for b in chain[i + 1:]) \
+                and all(dna.rc(o) != o for o in chain)
+            if not ok:
+                chain = chain[:2]
+                if plasmid.collides(chain[0], chain[1]) or dna.rc(chain[0]) == chain[0]:
+                    raise Reject("composition-chain-collides")
+            lspec["chain"] = chain
+            lspec["modules"] = (lspec["modules"] * 4)[:len(chain) - 1]
+            lspec["order"] = list(range(len(chain) - 1))
+        lv = build_level(lspec, real_first=real)
+        if dna.count_sites(lv.expected, lv.g2) > 2:
+            ctx.event("skipped:extra-next-level-site")
+            break
+        product = first_level(dict(lspec, id="L%d" % li), lv)
+        if not dna.circ_equal(str(product.seq), lv.expected):
+            raise Violation("LEVEL1-PRODUCT", "%s (level %d of a composition): product is not the closed form"
+                            % (tname, li))
+        os_, oe, frag = judge_next(lv, product, tname + " (composition level %d)" % li, lspec.get("ks"))
+        depth += 1
+        k = (lspec.get("ks") or [0])[0] % len(product.seq)
+        real = (str((product >> k).seq), frag)
+        prev_overhangs = (os_, oe)
+        if os_ == oe:
+            break
+    ctx.note(spec, depth >= 2, ["composition:%s" % "-".join(map(str, triples)), "depth:%d" % depth])
+
+
 def check(spec, ctx):
     from moclo import errors
+    if spec.get("kind") == "composition":
+        return check_composition(spec, ctx)
     lv = build_level(spec)
     tname = TRIPLES[spec["triple"]][0].split(".")[1]
     if dna.count_sites(lv.expected, lv.g2) > 2:
@@ -238,5 +332,14 @@ def level_spec(draw, triple=None):
     return spec
 
 
+@st.composite
+def composition_spec(draw):
+    c = draw(st.integers(0, len(COMPOSITIONS) - 1))
+    levels = [draw(level_spec(triple=t)) for t in COMPOSITIONS[c]]
+    return {"kind": "composition", "composition": c, "levels": levels}
+
+
 def strategies(tier):
-    return {"triple": (level_spec(), 250 if tier == "quick" else 5000)}
+    q = tier == "quick"
+    return {"triple": (level_spec(), 250 if q else 5000),
+            "composition": (composition_spec(), 60 if q else 1500)}
